@@ -8,15 +8,24 @@ copy <fuel> <root> <ncells> cell*        (heap model, `copyCall` under the *rege
       one entry per cell reachable from the copy (old cells and by-design-shared ones are not entered)
   | err attr|fuel|unknown
 
+hist <root> <ncells> cell* <nops> hop*   (heap histories, `stepH` of Core/C06Ops under the *regenerated* tables)
+    hop  := C i | W i path | F i path x <n> cell* | I i path x | P i path x j path | D i path x
+    path := <len> name*        cells of a fragment refer to each other by `r<k>` = k-th cell of the fragment
+  → one block per op, blocks separated by ` | `:  ok wt=<0|1>|err:<kind> # <canonical dump of everything reachable
+    from the roots in order (slots by name, list members in order): first visit numbers a cell, later visits
+    print #<number>>
+    a refused op leaves the state unchanged
+
 lm <nops> op*                            (landmark-manager state machine)
     op  := NM | NO d | NE cls dim n int* | S ref key arg | G ref key | D ref key | K ref | C ref | A o ref
-         | CO o | ME i δ | MG ref key δ | X ref δ
+         | CO o | ME i δ | MG ref key δ | X ref δ | IM ref <n> name-id* | N ref
     ref := m<i> | o<i>     key := N | <nat>     arg := e<i> | g<d> | w
   → one block per op, blocks separated by ` | `:  <reply> # <world dump>
 -/
 import MenpoModel.Core.Codec
 import MenpoModel.Core.C06Heap
 import MenpoModel.Lemmas.C06Total
+import MenpoModel.Core.C06Ops
 import MenpoModel.Core.C06Landmarks
 import MenpoModel.Generated.C06AttrKinds
 
@@ -94,6 +103,93 @@ def stepCopy (rest : List String) : String :=
         s!"ord={b01 (orderedB h)} " ++
         s!"n0={h.length} n1={h'.length} " ++ " ".intercalate entries
 
+/-! ### heap histories -/
+
+def pPath : P Path := pList tok
+
+def relocVal (n : Nat) : Val → Val
+  | .imm t => .imm t
+  | .ref k => .ref (n + k)
+
+def relocCell (n : Nat) : Cell → Cell
+  | .buf d => .buf d
+  | .node k fs => .node k (fs.map fun p => (p.1, relocVal n p.2))
+
+/-- an op whose fragment is still relative to its own start -/
+inductive ROp where
+  | op (o : HOp)
+  | fresh (i : Nat) (p : Path) (x : String) (frag : List Cell)
+
+def pHOp : P ROp := do
+  let t ← tok
+  match t with
+  | "C" => do let i ← pNat; pure (.op (.copy i))
+  | "W" => do let i ← pNat; let p ← pPath; pure (.op (.write i p [1]))
+  | "F" => do let i ← pNat; let p ← pPath; let x ← tok; let frag ← pList pCell; pure (.fresh i p x frag)
+  | "I" => do let i ← pNat; let p ← pPath; let x ← tok; pure (.op (.putImm i p x))
+  | "P" => do let i ← pNat; let p ← pPath; let x ← tok; let j ← pNat; let q ← pPath; pure (.op (.putCopy i p x j q))
+  | "D" => do let i ← pNat; let p ← pPath; let x ← tok; pure (.op (.del i p x))
+  | _ => failure
+
+def kindTag : NodeKind → String
+  | .dict => "D"
+  | .list => "L"
+  | .frozen => "F"
+  | .obj C => "O:" ++ C
+
+structure DumpSt where
+  seen : List (Nat × Nat)
+  out : List String
+
+def dumpVal (h : Heap) : Nat → Val → DumpSt → DumpSt
+  | _, .imm _, st => { st with out := "i" :: st.out }
+  | 0, .ref _, st => { st with out := "cut" :: st.out }
+  | f + 1, .ref a, st =>
+    match st.seen.lookup a with
+    | some n => { st with out := s!"#{n}" :: st.out }
+    | none =>
+      let n := st.seen.length
+      let st := { st with seen := (a, n) :: st.seen }
+      match h[a]? with
+      | none => { st with out := "dangling" :: st.out }
+      | some (.buf _) => { st with out := "B" :: st.out }
+      | some (.node k fs) =>
+        let st := { st with out := (kindTag k ++ "(") :: st.out }
+        let fs := if k == .list then fs else fs.mergeSort (fun a b => !(decide (b.1 < a.1)))
+        let st := fs.foldl (fun st p => dumpVal h f p.2 { st with out := (p.1 ++ "=") :: st.out }) st
+        { st with out := ")" :: st.out }
+
+def dumpWorld (w : HW) : String :=
+  let st := w.roots.foldl (fun st r => dumpVal w.heap (w.heap.length + 1) (.ref r) { st with out := "/" :: st.out })
+    ⟨[], []⟩
+  String.join st.out.reverse
+
+def fmtHErr : HErr → String
+  | .badRoot => "bad-root"
+  | .badPath => "bad-path"
+  | .badCell => "bad-cell"
+  | .badFrag => "bad-frag"
+  | .missing => "missing-key"
+  | .illTyped => "ill-typed"
+  | .copyFailed .attr => "copy-attr"
+  | .copyFailed .fuel => "copy-fuel"
+  | .copyFailed .unknown => "copy-unknown"
+
+def stepHist (rest : List String) : String :=
+  match runP (do let root ← pNat; let cells ← pList pCell; let ops ← pList pHOp; pure (root, cells, ops)) rest with
+  | none => "bad-op"
+  | some (root, h, ops) =>
+    let r := ops.foldl (fun (acc : HW × List String) rop =>
+      let w := acc.1
+      let op : HOp := match rop with
+        | .op o => o
+        | .fresh i p x frag => .putFresh i p x (frag.map (relocCell w.heap.length))
+      match stepH Generated.attrKinds Generated.copySupplier w op with
+      | .ok w' => (w', (s!"ok wt={b01 (wtHeap Generated.attrKinds Generated.copySupplier w'.heap)} # " ++
+          dumpWorld w') :: acc.2)
+      | .error e => (w, ("err:" ++ fmtHErr e ++ " # " ++ dumpWorld w) :: acc.2)) (⟨h, [root]⟩, [])
+    s!"closed={b01 (closedB h)} " ++ " | ".intercalate r.2.reverse
+
 /-! ### landmark-manager part -/
 
 open MenpoModel.C06.LM
@@ -133,6 +229,8 @@ def pOp : P Op := do
   | "ME" => do let i ← pNat; let d ← pInt; pure (.mutExt i d)
   | "MG" => do let r ← pRef; let k ← pKey; let d ← pInt; pure (.mutGot r k d)
   | "X" => do let r ← pRef; let d ← pInt; pure (.xform r d)
+  | "IM" => do let r ← pRef; let sel ← pList pNat; pure (.items r sel)
+  | "N" => do let r ← pRef; pure (.count r)
   | _ => failure
 
 def fmtErr : LM.Err → String
@@ -152,6 +250,8 @@ def fmtReply : Reply → String
   | .shape s => "shape:" ++ fmtShape s
   | .keys ks => "keys:" ++ ",".intercalate (ks.map toString)
   | .idx i => s!"idx:{i}"
+  | .items l => "items:" ++ ";".intercalate (l.map fun p => s!"{p.1}={fmtShape p.2}")
+  | .count n has nd => s!"count:{n}:{b01 has}:" ++ (match nd with | some d => toString d | none => "-")
 
 def fmtWorld (w : World) : String :=
   let ms := (List.range w.mgrs.length).map fun i =>
@@ -175,6 +275,7 @@ def step (toks : List String) : String :=
   match toks with
   | "copy" :: rest => stepCopy rest
   | "lm" :: rest => stepLM rest
+  | "hist" :: rest => stepHist rest
   | _ => "bad-op"
 
 end MenpoModel.Drive.C06
